@@ -1117,7 +1117,11 @@ int Interpret::interpFile(FILE* in) {
     Smt2newContext context(in);
     int rval = osmt_yyparse(&context);
 
-    if (rval != 0) return rval;
+    if (rval != 0) {
+        // the parser has printed the diagnostic; make the exit status reflect it
+        _okStatus = false;
+        return rval;
+    }
 
     const ASTNode* r = context.getRoot();
     execute(r);
